@@ -375,8 +375,10 @@ Section Engine.
         (s2, true)
     end.
 
-  (* bulk_load_cold_tier: cold_tier.insert per document, then L1a invalidation of every listed id;
-     the hot tier is bypassed (a mirror of an overwritten id goes stale) *)
+  (* bulk_load_cold_tier: cold_tier.insert per document, then invalidate_caches_after_bulk_load:
+     L1a invalidation of every listed id and hot_tier.batch_delete of every listed id (whether or
+     not its individual cold insert succeeded) — the hot tier is bypassed and the recent-write
+     mirrors of the loaded ids are dropped (repo commit b64dfda) *)
   Definition bulk_load_one (acc : state * nat * nat) (d : N * vec * meta) : state * nat * nat :=
     let '(s, loaded, failed) := acc in
     let '(id, v, m) := d in
@@ -386,7 +388,9 @@ Section Engine.
     end.
   Definition bulk_load (s : state) (docs : list (N * vec * meta)) : state * (nat * nat) :=
     let '(s1, loaded, failed) := fold_left bulk_load_one docs (s, 0, 0) in
-    (fold_left l1_invalidate (map (fun d => fst (fst d)) docs) s1, (loaded, failed)).
+    let ids := map (fun d => fst (fst d)) docs in
+    let s2 := fold_left l1_invalidate ids s1 in
+    (set_hot s2 (remove_all ids (hot s2)), (loaded, failed)).
 
   (* harness-owned handles: CacheStrategy::insert_cached on a (sub-)strategy, HotTier::insert_with_coherence *)
   Definition poke_l1 (s : state) (b : bool) (id : N) (v : vec) (t : token) : state :=
